@@ -72,7 +72,8 @@ ListsOf(c) ==
      "fri.query_proofs[0].commit_phase_openings[0].sibling_values", "fri.query_proofs[0].commit_phase_openings[0].opening_proof",
      "fri.final_poly", "degree_bits"}
     \cup (IF c.prep THEN {"opened_values.preprocessed_local", "opened_values.preprocessed_next"} ELSE {})
-    \cup (IF c.zk THEN {"opened_values.random"} ELSE {})
+    \cup (IF c.zk THEN {"opened_values.random", "random_opened.rounds", "random_opened[0]", "random_opened[0][0]", "random_opened[last][0]",
+                         "random_opened[0][0][0]"} ELSE {})    \* HidingFriPcs: opened values of the random codewords, rounds -> matrices -> points -> values
     \cup (IF c.pubvals /\ c.proto # "tables" THEN {"public_values"} ELSE {})
     \cup (IF c.proto # "uni" THEN {"instances", "lookup_terminals", "common.lookups"} ELSE {})
     \cup (IF c.proto # "uni" /\ c.prep THEN {"common.preprocessed.instances"} ELSE {})
